@@ -386,6 +386,85 @@ func c05(c *an.Ctx) {
 		}
 	})
 
+	c.Check("R-GUARD", "Invoke: the size trigger exists whenever it can be closed (both MaxSize tests are MaxSize > 0, the size test compares len(bg.args) with MaxSize for equality); a cancelled leader publishes ctx.Err() as the group's error before closing doneCh", 4, func(o *an.O) {
+		fn := c.NeedFunc(bp, "(*Func).Invoke")
+		// every comparison of f.MaxSize with a constant
+		nConst, nSize := 0, 0
+		an.Instrs(fn, func(i ssa.Instruction) {
+			bo, ok := i.(*ssa.BinOp)
+			if !ok {
+				return
+			}
+			isMax := func(v ssa.Value) bool { return an.IsFieldAccess(v, "Func", "MaxSize") }
+			switch {
+			case isMax(bo.X) || isMax(bo.Y):
+				other, flipped := bo.Y, false
+				if isMax(bo.Y) {
+					other, flipped = bo.X, true
+				}
+				if n, ok := an.ConstInt(other); ok {
+					nConst++
+					o.Site(i)
+					op := bo.Op
+					if flipped {
+						op = map[token.Token]token.Token{token.LSS: token.GTR, token.GTR: token.LSS, token.LEQ: token.GEQ, token.GEQ: token.LEQ}[op]
+					}
+					okCmp := (op == token.GTR && n == 0) || (op == token.GEQ && n == 1) || (op == token.NEQ && n == 0)
+					if !okCmp {
+						o.FailAt(i, "f.MaxSize is tested with %s %d: the channel that signals a full batch must exist exactly when MaxSize > 0 (with MaxSize == 1 the first argument would close a nil channel, or the group would never be closed)", op, n)
+					}
+					return
+				}
+				// len(bg.args) vs MaxSize
+				if call, ok := other.(*ssa.Call); ok {
+					if b, ok := call.Call.Value.(*ssa.Builtin); ok && b.Name() == "len" && bgField(call.Call.Args[0], "args") {
+						nSize++
+						o.Site(i)
+						if bo.Op != token.EQL && bo.Op != token.GEQ && bo.Op != token.LEQ {
+							o.FailAt(i, "the batch-is-full test compares len(bg.args) with MaxSize using %s", bo.Op)
+						}
+					}
+				}
+			}
+		})
+		if nConst < 2 || nSize < 1 {
+			o.Fail(p.Pos(fn.Pos()), "expected two MaxSize > 0 tests and one len(bg.args) == MaxSize test in Invoke (found %d/%d)", nConst, nSize)
+		}
+		// cancelled leader
+		var closeDone ssa.Instruction
+		for _, op := range an.ChanOps(fn) {
+			if op.Kind == "close" && bgField(op.Chan, "doneCh") {
+				closeDone = op.Instr
+			}
+		}
+		an.Need(closeDone != nil, "close(bg.doneCh) in Invoke")
+		n := 0
+		for _, nt := range an.NilTestsWhere(fn, func(v ssa.Value) bool {
+			call, ok := v.(*ssa.Call)
+			return ok && call.Call.IsInvoke() && call.Call.Method.Name() == "Err"
+		}) {
+			if !an.Reach(fn, nt.NonNil.Instrs[0], an.NewBlocker())[closeDone] && nt.NonNil.Instrs[0] != closeDone {
+				continue // the early test before the lock, not the leader's
+			}
+			n++
+			o.Site(nt.If)
+			blk := an.NewBlocker()
+			an.Instrs(fn, func(i ssa.Instruction) {
+				if st, ok := i.(*ssa.Store); ok {
+					if fa, ok := st.Addr.(*ssa.FieldAddr); ok && an.FieldName(fa.X.Type(), fa.Field) == "err" && !isConstNil(st.Val) {
+						blk.Instr[i] = true
+					}
+				}
+			})
+			if an.Reach(fn, nt.NonNil.Instrs[0], blk)[closeDone] {
+				o.FailAt(nt.If, "a leader whose context is cancelled can close doneCh without having set the group's error: every caller of the group then indexes a nil result")
+			}
+		}
+		if n == 0 {
+			o.Fail(p.Pos(fn.Pos()), "the leader no longer tests ctx.Err() before running the batch")
+		}
+	})
+
 	c.Check("R-LOCK", "Invoke never blocks (channel receive/send, blocking select, wait) while holding batchContext.mu", 2, func(o *an.O) {
 		fn := invoke()
 		ls := an.ComputeLocks(fn, nil)
